@@ -250,12 +250,14 @@ func c29sRun(x *mc.Exec, sc c29sScenario, rep *mc.Report) mc.Verdict {
 			op, ok := mon.curOp[name]
 			if !ok || !(op.kind == c29sAcq || op.kind == c29sAcqCtx) {
 				legit = false
+				continue
 			}
-		}
-		// the request at the FRONT of the queue is the one that can never fit; whatever queued behind it
-		// waits with it, as FIFO order demands
-		if front := mon.s.waiters.Front(); front == nil || front.Value.(waiter).n <= mon.s.size {
-			legit = false
+			// either the request itself can never fit (Acquire then waits for its context without queueing),
+			// or it queued behind a front waiter that can never fit and waits with it, as FIFO order demands
+			front := mon.s.waiters.Front()
+			if op.n <= mon.s.size && (front == nil || front.Value.(waiter).n <= mon.s.size) {
+				legit = false
+			}
 		}
 		if legit {
 			key := sc.name + "|" + strings.Join(log, ",") + "|request-heavier-than-size-parked"
